@@ -246,7 +246,7 @@ func (run *checkRun) verifyFn(s *FnSpec) *fnResult {
 func (run *checkRun) verifyLemma(s *FnSpec) *fnResult {
 	fr := &fnResult{spec: s}
 	ex := &Exec{ctx: newCtx(), db: run.db, spec: s, cf: run.db.files[s.Pkg], pkgPath: s.Pkg, params: map[string]TV{},
-		notes: map[string]bool{}, strIDs: map[string]int{}, euclid: map[string][2]Term{}, usedContracts: map[string]*FnSpec{}}
+		notes: map[string]bool{}, strIDs: map[string]int{}, euclid: map[string]*euclidEntry{}, usedContracts: map[string]*FnSpec{}}
 	st := &State{ex: ex, locals: map[*ssa.Alloc]Value{}, regs: map[ssa.Value]Value{}, heaps: map[string]Term{},
 		ghost: map[string]Value{}, ranged: map[string]bool{}}
 	st.allocTop = ex.ctx.Const("allocTop0", SInt)
@@ -258,6 +258,7 @@ func (run *checkRun) verifyLemma(s *FnSpec) *fnResult {
 		for _, r := range s.Requires {
 			st.assume(env.evalBool(r.Expr))
 		}
+		ex.useLemmas(st, env, "lemma "+shortPkg(s.Pkg)+"."+s.Key+"#")
 		ex.obligs = append(ex.obligs, Oblig{Name: "lemma " + shortPkg(s.Pkg) + "." + s.Key + "#cover.requires", Kind: "cover", Asm: st.asm[:len(st.asm):len(st.asm)], Goal: tFalse, Cover: true})
 		for i, e := range s.Ensures {
 			l := e.Label
@@ -266,6 +267,7 @@ func (run *checkRun) verifyLemma(s *FnSpec) *fnResult {
 			}
 			g := env.evalBool(e.Expr)
 			ex.obligs = append(ex.obligs, Oblig{Name: "lemma " + shortPkg(s.Pkg) + "." + s.Key + "#" + l, Kind: "lemma", Asm: st.asm[:len(st.asm):len(st.asm)], Goal: g, Desc: e.Src})
+			st.assume(g) // later conclusions may rely on earlier ones (each is proved in turn)
 		}
 	})
 	fr.err = err
